@@ -73,3 +73,27 @@ Example C26_rest_post_example :
   let a := {| a_none := false; a_any := false; a_req := 1; a_opt := 0; a_rest := true; a_post := 1; a_block := false |} in
   map (accepts (aspec_shape a)) (seq 0 6) = map (accepts_decl (infer_arguments a None [] [])) (seq 0 6).
 Proof. vm_compute. reflexivity. Qed.
+
+(* with a rest parameter: required ++ [rest] ++ trailing parameters (REQ(n)|REST()|POST(m), or a format `…*`), declared by
+   the configuration with types that admit everything: checkAndPropagateArgs in the check round accepts k positional
+   arguments exactly when n + m <= k *)
+From RT Require Import Proofs.RestArityP.
+Theorem C26_arity_rest : forall t star,
+  is_star star = true -> is_dstar star = false ->
+  match tget t (drop1 star) with Some dt => is_builtin dt | None => false end = true -> is_named_darg star = false ->
+  forall P Q args, forallb (req_any t) P = true -> forallb (req_any t) Q = true -> forallb plain_arg args = true ->
+  (fst (check_args fixed_args true false (P ++ star :: Q) t args) = COk <-> List.length P + List.length Q <= List.length args).
+Proof. intros t star H1 H2 H3 H4 P Q args. exact (check_args_rest t star H1 H2 H3 H4 P Q args). Qed.
+Print Assumptions C26_arity_rest.
+
+(* non-vacuity: REQ(1)|REST()|POST(1) as the loader declares it *)
+Example C26_arity_rest_example :
+  let U := untyped_decl "Untyped" "" in
+  let R := match t_vt (untyped_decl "Untyped" "*args") with Some v => v | None => U end in
+  let t := [("p0", U); ("args", R); ("p2", U)] in
+  is_star "*args" = true /\ is_dstar "*args" = false /\ is_named_darg "*args" = false /\
+  match tget t (drop1 "*args") with Some dt => is_builtin dt | None => false end = true /\
+  forallb (req_any t) ["p0"] = true /\ forallb (req_any t) ["p2"] = true /\
+  map (fun k => match fst (check_args fixed_args true false ["p0"; "*args"; "p2"] t (repeat int_arg k)) with COk => true | _ => false end) (seq 0 5)
+  = [false; false; true; true; true].
+Proof. vm_compute. repeat split; reflexivity. Qed.
